@@ -266,3 +266,45 @@ package implementation
 //@   ensures[keeps-entries-wellformed] err == nil ==> pillarsWellFormed(stg(context))
 //@   ensures[no-payment-on-error] err != nil ==> len(descendants) == 0
 //@   modifies sendBlock.Data, MF:common/db.DB.pillar*, MF:common/db.DB.qsrDep
+
+// ======================================================================================================================
+// Property C09, division sweep: no accepted call dies in a division by zero. Every math/big Quo / Div / Mod in this package
+// is an obligation "divisor != 0" in the function (or closure) that contains it. The functions are marked `safety`; of the
+// run-time-panic obligations this generates only the division ones are claimed by the check (nil/bounds/explicit-panic
+// obligations of these large bodies are generated, listed as not claimed, and not decided).
+
+// Crediting a reward touches the contract's storage and the deposit objects it has just loaded - not the amounts handed in.
+//@ func addReward(context, epoch, reward)
+//@   trusted
+//@   modifies context.storageVersion
+
+// raw reward of one pillar: divides by the pillar's expected block count and the epoch's total weight, both checked non-zero
+//@ func computePillarRewardForEpoch(detail, name)
+//@   safety
+
+// distribution to backers: divides by the pillar's total backer weight, checked non-zero right before the loop
+//@ func computeDetailedPillarReward(context, epoch) -> (err)
+//@   safety
+//@   loop 6
+//@     invariant val(backersAmount) != 0
+
+// stake rewards: the closure that divides by the cumulated stake runs only after the `Sign() == 0 -> return` guard
+//@ func computeStakeRewardsForEpoch(context, epoch) -> (err)
+//@   at-call IterateStakeEntries#2 assert[cumulated-stake-not-zero] val(cumulatedStake) != 0
+//@ func computeStakeRewardsForEpoch$2(stakeInfo)
+//@   safety
+//@   requires[guarded-by-the-caller] val(cumulatedStake) != 0
+//@   ensures[keeps-the-guard] val(cumulatedStake) != 0
+
+// sentinel rewards: same shape
+//@ func computeSentinelRewardsForEpoch(context, epoch) -> (err)
+//@   at-call IterateSentinelEntries#2 assert[cumulated-weight-not-zero] val(cumulatedSentinel) != 0
+//@ func computeSentinelRewardsForEpoch$2(sentinelInfo)
+//@   safety
+//@   requires[guarded-by-the-caller] val(cumulatedSentinel) != 0
+//@   ensures[keeps-the-guard] val(cumulatedSentinel) != 0
+
+// constant divisors
+//@ func getWeightedStakeAmount(amount, stakingTime)
+//@   safety
+//@   requires amount != nil
